@@ -927,6 +927,7 @@ def build(s):
             return ShapelyPolygon(Space({s["var"]: 2}), vertices=[list(map(float, v)) for v in s["vertices"]])
         if p == "polyhedron":
             from torchphysics.problem.domains.domain3D.trimesh_polyhedron import TrimeshPolyhedron
+            tolkw = {"tol": float(s["tol"])} if "tol" in s else {}      # the documented boundary tolerance of the mesh
             if s.get("via_file"):
                 # written as an ASCII STL file (with the winding of the spec) and loaded through the file_name path
                 import tempfile
@@ -947,11 +948,11 @@ def build(s):
                         f.write("  endloop\n endfacet\n")
                     f.write("endsolid tpmon\n")
                 try:
-                    return TrimeshPolyhedron(Space({s["var"]: 3}), file_name=path, file_type="stl")
+                    return TrimeshPolyhedron(Space({s["var"]: 3}), file_name=path, file_type="stl", **tolkw)
                 finally:
                     os.remove(path)
             return TrimeshPolyhedron(Space({s["var"]: 3}), vertices=[list(map(float, v)) for v in s["vertices"]],
-                                     faces=[list(map(int, f)) for f in s["faces"]])
+                                     faces=[list(map(int, f)) for f in s["faces"]], **tolkw)
         if p == "point":
             return D.Point(Space({s["var"]: s["dim"]}), val_torch(s["point"]))
         raise ValueError(p)
